@@ -4,6 +4,7 @@ go 1.19
 
 require (
 	github.com/btcsuite/btcd v0.22.0-beta
+	github.com/gorilla/mux v1.8.0
 	github.com/trustbloc/logutil-go v1.0.0-rc1
 	github.com/trustbloc/sidetree-core-go v0.0.0
 )
